@@ -61,10 +61,13 @@ def feasibility(prob, values, tol_factor=1e-5):
                 worst = {"excess": ex, "kind": "constraint", "index": k, "element": e, "relation": A.render(rel), "lhs": l, "rhs": r, "violation": viol}
                 ok = False
     info = D.var_info()
+    edits = prob.get("bound_edits") or {}
     for nm, v in values.items():
         if nm not in info:
             continue
         lb, ub, _ = info[nm]
+        if nm in edits:
+            lb, ub = edits[nm]
         scale = max(1.0, abs(v))
         for bound, viol in ((lb, None if lb is None else lb - v), (ub, None if ub is None else v - ub)):
             if viol is None:
